@@ -112,6 +112,22 @@ func (s *ReplicaSession) send(response *proto.WALStreamResponse) error {
 	}
 }
 
+// live reports whether the session is connected and receiving entries. The flags are written
+// under s.mu by the sender goroutine, the heartbeat monitor and the write path, so they are
+// read under it as well.
+func (s *ReplicaSession) live() bool {
+	s.mu.Lock()
+	defer s.mu.Unlock()
+	return s.Connected && s.Active
+}
+
+// snapshot returns the session's state under its mutex
+func (s *ReplicaSession) snapshot() (connected, active bool, lastAck uint64, lastActivity time.Time) {
+	s.mu.Lock()
+	defer s.mu.Unlock()
+	return s.Connected, s.Active, s.LastAckSequence, s.LastActivity
+}
+
 // shutdown makes the session's StreamWAL handler and sender goroutine return
 func (s *ReplicaSession) shutdown() {
 	if s.done != nil {
@@ -376,9 +392,9 @@ func (p *Primary) StreamWAL(
 		case <-ticker.C:
 			// Check if we have new entries to send
 			currentSeq := p.currentWAL().GetNextSequence() - 1
-			if currentSeq > session.LastAckSequence {
+			if _, _, lastAck, _ := session.snapshot(); currentSeq > lastAck {
 				log.Info("Checking for new entries: currentSeq=%d > lastAck=%d",
-					currentSeq, session.LastAckSequence)
+					currentSeq, lastAck)
 				if err := p.sendUpdatedEntries(session); err != nil {
 					log.Error("Failed to send updated entries: %v", err)
 					// Don't terminate the stream on error, just continue
@@ -542,7 +558,7 @@ func (p *Primary) broadcastToReplicas(response *proto.WALStreamResponse) {
 	defer p.mu.RUnlock()
 
 	for _, session := range p.sessions {
-		if !session.Connected || !session.Active {
+		if !session.live() {
 			continue
 		}
 
@@ -560,7 +576,7 @@ func (p *Primary) broadcastToReplicas(response *proto.WALStreamResponse) {
 
 // sendToReplica sends a WAL stream response to a specific replica
 func (p *Primary) sendToReplica(session *ReplicaSession, response *proto.WALStreamResponse) {
-	if session == nil || !session.Connected || !session.Active {
+	if session == nil || !session.live() {
 		return
 	}
 
@@ -823,13 +839,14 @@ func (p *Primary) getSessionIDFromContext(ctx context.Context) string {
 	// Log the available sessions for debugging
 	log.Info("Looking for active session in %d available sessions", len(p.sessions))
 	for id, session := range p.sessions {
+		connected, active, lastAck, _ := session.snapshot()
 		log.Info("Session %s: connected=%v, active=%v, lastAck=%d",
-			id, session.Connected, session.Active, session.LastAckSequence)
+			id, connected, active, lastAck)
 	}
 
 	// Return the first active session ID (this is just a placeholder)
 	for id, session := range p.sessions {
-		if session.Connected {
+		if connected, _, _, _ := session.snapshot(); connected {
 			log.Info("Selected active session %s", id)
 			return id
 		}
@@ -888,13 +905,13 @@ func (p *Primary) maybeManageWALRetention() {
 	activeReplicas := 0
 
 	for id, session := range p.sessions {
-		if session.Connected && session.Active {
+		if connected, active, lastAck, _ := session.snapshot(); connected && active {
 			activeReplicas++
-			if session.LastAckSequence < minAcknowledgedSeq {
-				minAcknowledgedSeq = session.LastAckSequence
+			if lastAck < minAcknowledgedSeq {
+				minAcknowledgedSeq = lastAck
 			}
 			log.Info("Replica %s has acknowledged up to sequence %d",
-				id, session.LastAckSequence)
+				id, lastAck)
 		}
 	}
 	p.mu.RUnlock()
@@ -942,8 +959,10 @@ func (p *Primary) Close() error {
 	p.mu.Lock()
 	for id := range p.sessions {
 		session := p.sessions[id]
+		session.mu.Lock()
 		session.Connected = false
 		session.Active = false
+		session.mu.Unlock()
 	}
 	p.sessions = make(map[string]*ReplicaSession)
 	p.mu.Unlock()
